@@ -143,6 +143,14 @@ func ZZ_C13_W34() {
 		if ok2 {
 			zzverif.Assert(w.cumulated(0).Eq(new(uint256.Int).Sub(left, req)), "W4 withdrawable after two withdrawals")
 		}
+		// the committed record agrees (what a restarted node and the reward query see)
+		want := w.cumulated(0)
+		_, _, _ = w.sc.Commit()
+		cr, _ := w.sc.rewardLedger.Read(ledger.ToLedgerKey(zzAddr(0)))
+		zzverif.Assert(cr != nil, "W4 reward record is committed")
+		if cr != nil {
+			zzverif.Assert(cr.GetCumulated().Eq(want), "W4 committed withdrawable reward = issued - withdrawn")
+		}
 		zzverif.Reach("W34 accepted")
 	} else {
 		zzverif.Assert(bal1.Eq(bal0), "W4 rejected withdrawal leaves the balance")
